@@ -1,6 +1,8 @@
 ---------------------------- MODULE BatchContract ----------------------------
 (* C10 - the Batcher as seen by its users: a deterministic monitor over       *)
 (*   sub_call {s,kind} / sub_ret {s} / cancel {s}                              *)
+(*        kind: how the reader behaves - prompt | slow | stalled | late (stays   *)
+(*        away until the end of the run, then reads everything)                 *)
 (*   batch_call {n,key,due} / batch_ret {n}   Batch call n (its value is n);   *)
 (*                                  due = clock at the call + interval (ticks) *)
 (*   adv {now}                      the clock was moved                        *)
@@ -39,7 +41,7 @@ ToSet(s) == {s[i] : i \in 1..Len(s)}
 
 (* late: the Subscribe call was not over when Close was called - the batcher may silently drop such a subscriber *)
 CSubCall(c, e) == [c EXCEPT !.subs = (e.s :> [st |-> "called", kind |-> e.kind, recv |-> <<>>, lateWait |-> FALSE,
-                                               late |-> c.closeCalled, retd |-> FALSE]) @@ c.subs]
+                                               late |-> c.closeCalled, retd |-> FALSE, awake |-> FALSE]) @@ c.subs]
 CSubRet(c, e) == [c EXCEPT !.subs[e.s].st = IF c.subs[e.s].st = "called" THEN "subscribed" ELSE @, !.subs[e.s].retd = TRUE]
 CCancel(c, e) == [c EXCEPT !.subs[e.s].st = "cancelled"]
 
@@ -54,7 +56,9 @@ CBatchCall(c, e) ==
                                                    ELSE c.bs[m]]
       atCall == {s \in DOMAIN c.subs : c.subs[s].st = "subscribed"}
   IN [c EXCEPT !.bs = (e.n :> [key |-> e.key, due |-> e.due, ret |-> FALSE, sup |-> FALSE, supBy |-> {},
-                               maybe |-> inflight \/ c.closeCalled, atCall |-> atCall, elig |-> {}, fixed |-> FALSE,
+                               maybe |-> inflight \/ c.closeCalled, atCall |-> atCall,
+                               \* already deliverable at the call (interval 0): the subscribers of this moment are the sure ones
+                               elig |-> IF c.now >= e.due - Early THEN atCall ELSE {}, fixed |-> c.now >= e.due - Early,
                                delivered |-> {}]) @@ bs2]
 (* The clock moves.  A value may be delivered from Early ticks before its time on: the subscribers whose Subscribe *)
 (* had returned before this step are the ones that surely are registered when it is delivered.                     *)
@@ -80,12 +84,14 @@ CRecv(c, e) ==
        IN IF WouldCycle(c.before, X, e.v) THEN Bad("subscribers saw values in different orders")
           ELSE [c EXCEPT !.before = AddBefore(c.before, X, e.v), !.subs[e.s].recv = Append(@, e.v), !.bs[e.v].delivered = @ \cup {e.s}]
 
-LiveStalled(c) == \E s \in DOMAIN c.subs : c.subs[s].st = "subscribed" /\ c.subs[s].kind = "stalled"
+(* a reader of kind "late" stays away (like a stalled one) until its first rwait, then reads everything *)
+LiveStalled(c) == \E s \in DOMAIN c.subs : /\ c.subs[s].st = "subscribed"
+                                           /\ (c.subs[s].kind = "stalled" \/ (c.subs[s].kind = "late" /\ ~c.subs[s].awake))
 
 Missed(c, e, S(_)) ==
   \E n \in DOMAIN c.bs : /\ c.bs[n].ret /\ ~c.bs[n].sup /\ ~c.bs[n].maybe /\ c.bs[n].due <= c.now
                          /\ \E s \in S(n) : /\ c.subs[s].st = "subscribed"
-                                            /\ (c.subs[s].kind = "prompt" \/ (e.final /\ c.subs[s].kind = "slow"))
+                                            /\ (c.subs[s].kind = "prompt" \/ (e.final /\ c.subs[s].kind \in {"slow", "late"}))
                                             /\ n \notin ToSet(c.subs[s].recv)
 CQuiescent(c, e) ==
   IF c.closeCalled \/ LiveStalled(c) THEN c
@@ -120,7 +126,7 @@ CNext(c, e) ==
          [] e.ev = "batch_call" -> CBatchCall(c, e)
          [] e.ev = "batch_ret"  -> CBatchRet(c, e)
          [] e.ev = "adv"        -> CAdv(c, e)
-         [] e.ev = "rwait"      -> [c EXCEPT !.subs[e.s].lateWait = c.closeRet]
+         [] e.ev = "rwait"      -> [c EXCEPT !.subs[e.s].lateWait = c.closeRet, !.subs[e.s].awake = TRUE]
          [] e.ev = "recv"       -> CRecv(c, e)
          [] e.ev = "close_call" -> [c EXCEPT !.closeCalled = TRUE,
                                              !.subs = [s \in DOMAIN c.subs |-> IF c.subs[s].retd THEN c.subs[s] ELSE [c.subs[s] EXCEPT !.late = TRUE]]]
